@@ -262,6 +262,14 @@ def _datetime_cmd(obj, which):
     raise ValueError("cannot convert %r (type %s) to an array element" % (obj, type(obj).__name__) + FILENAME_SUFFIX)
 
 
+def _is_iterable(obj):
+    try:
+        iter(obj)
+    except TypeError:
+        return False
+    return True
+
+
 def _fromiter(cmds, obj):
     # builder_fromiter of content.cpp, same order of tests
     if obj is None:
@@ -294,7 +302,7 @@ def _fromiter(cmds, obj):
             cmds.append("(field %s)" % hx(k))
             _fromiter(cmds, v)
         cmds.append("(endrecord)")
-    elif hasattr(obj, "__iter__"):
+    elif _is_iterable(obj):
         cmds.append("(beginlist)")
         for x in obj:
             _fromiter(cmds, x)
